@@ -988,6 +988,8 @@ class Interp:
             base.dom = z3.Store(base.dom, kt, z3.BoolVal(True))
             base.val = z3.Store(base.val, kt, to_term(v, base.vk))
             return
+        if isinstance(base, VObj) and base.cls == 'Table' and self.stubs.table_store(self, st, base, self.eval(sl, st), v):
+            return
         raise EngineError(f'subscript store on {base!r}')
 
     def coerce_elem(self, v, base):
@@ -1127,6 +1129,9 @@ class Interp:
 
     def e_List(self, e, st):
         items = [self.eval(x, st) for x in e.elts]
+        kinds = {x.kind for x in items}
+        if len(kinds) > 1 and not kinds <= {'int', 'real', 'bool'} and 'none' not in kinds:
+            return VTuple(items)       # small heterogeneous list literal, e.g. [name, score]: modelled as a tuple
         return self.seq_from_items(items, st)
 
     def seq_from_items(self, items, st, ek=None, flavor='list'):
@@ -1458,6 +1463,8 @@ class Interp:
             if isinstance(v, VSeq) and v.init is not None:
                 j = z3.Int(fresh_name('j'))
                 self.oblige(st, f'defined[{txt}]', z3.ForAll([j], z3.Implies(z3.And(j >= 0, j < v.length), v.init[j])))
+        if isinstance(op, ast.Div) and not isinstance(b, VSeq):
+            self.oblige(st, f'div0[{txt}]', to_term(b, 'real') != 0, text=txt)
         i = z3.Int(fresh_name('i'))
         saved_cur_div = self.cur.get('numpy_div', False)
         self.cur['numpy_div'] = True
@@ -1877,6 +1884,10 @@ class Interp:
         base = self.eval(e.value, st)
         sl = e.slice
         txt = self.src(e)
+        if isinstance(base, VTuple) and not isinstance(sl, ast.Slice) and self.cur.get('row_fields'):
+            key = self.eval(sl, st)
+            if isinstance(key, VStr) and key.concrete() in self.cur['row_fields']:
+                return base.items[self.cur['row_fields'].index(key.concrete())]
         if isinstance(base, VTuple):
             if isinstance(sl, ast.Slice):
                 lo = self._const_int(sl.lower, st, 0)
